@@ -65,6 +65,7 @@ def enumerate_cases(tier: str):
             yield {"kind": kind, "fault": fault, "file": initial, "k": k, "T": None, "mutate": True}
             if fault == "none":
                 yield {"kind": kind, "fault": fault, "file": initial, "k": k, "T": None, "mutate": True, "reenter": True}
+                yield {"kind": kind, "fault": fault, "file": initial, "k": k, "T": None, "mutate": True, "prefill": True}
         for T in (1, 899, 900, 901, 1800, 5000):
             for k in (0, 1, 2, 3, 5):
                 yield {"kind": kind, "fault": fault, "file": initial, "k": k, "T": T, "mutate": True}
@@ -84,6 +85,7 @@ def strategy(tier: str):
             "T": st.one_of(st.none(), st.sampled_from((1, 899, 900, 901, 1799, 1800, 1801, 2700, 5000)), st.integers(1, 10000), st.floats(0.5, 4000.0).map(lambda x: round(x, 1))),
             "mutate": st.sampled_from((True, False, "in-place")),
             "reenter": st.booleans(),
+            "prefill": st.sampled_from((False, False, True)),
         }
     ).filter(lambda c: c["kind"] == "plain" or (c["kind"] == "plain-nosuspend" and c["fault"] != "connect-timeout") or ("disconnect" not in c["fault"] and c["fault"] != "connect-timeout"))
 
@@ -183,6 +185,8 @@ def run_case(case: dict) -> Outcome:
         loop = asyncio.get_running_loop()
         transport = _make_transport(kind, fault)
         gateway = Gateway(transport, Config(persistence_file=path))
+        if case.get("prefill"):
+            gateway.nodes[21] = Node(21, 17, "2.0")  # known to the application before the context is entered
         me = asyncio.current_task()
         caught: BaseException | None = None
         entered = False
@@ -195,8 +199,11 @@ def run_case(case: dict) -> Outcome:
                 return fail("connect-timeout:no-error", "a hanging connect returned")
             async with gateway:
                 entered = True
-                if initial == "registry" and env.snapshot(gateway.nodes) != FILE_REGISTRY:
-                    return fail("entry:file-not-loaded", f"registry after entry is {env.snapshot(gateway.nodes)!r}")
+                loaded_now = env.snapshot(gateway.nodes)
+                if initial == "registry" and {k: v for k, v in loaded_now.items() if k in FILE_REGISTRY} != FILE_REGISTRY:
+                    return fail("entry:file-not-loaded", f"registry after entry is {loaded_now!r}; the file holds node 3")
+                if case.get("prefill") and "21" not in loaded_now:
+                    return fail("entry:registry-replaced", f"node 21, registered before entering, is gone after entry: {sorted(loaded_now)}")
                 if T is not None:
                     await asyncio.sleep(1)
                     state, doc = disk()
